@@ -176,13 +176,31 @@ def run(ck, F):
                 ck.violation("R4", f"{short}:fn-name", e.site, f"{short}: method name is {nm}, not the snake_case form of the operation name", fn=short)
     # ---- R5
     evs = [e for e in X.events.get(OP_EMITTERS[0], []) if e.kind == "emit"]
-    body_lines = [e.skeleton().strip() for e in evs if not re.match(r"^\s*pub async fn", e.skeleton())]
-    want_lines = ["let credentials = self.credentials.as_ref().map(|(u, p)| (u.as_str(), p.as_str()));",
-                  "helpers::send_soap_request_using_client(&self.client, &self.location, credentials, req).await", "}"]
-    if body_lines == want_lines:
-        ck.ok("R5", "method-body", evs[0].site, "method body: map credentials, forward (&self.client, &self.location, credentials, req) to the helper, await, return")
+    body = [e for e in evs if not re.match(r"^\s*pub async fn", e.skeleton()) and e.skeleton().strip() not in ("}", "")]
+    cred = [e for e in body if re.match(r"^let credentials = self\.credentials\.as_ref\(\)\.map\(\|\(u, p\)\| \(u\.as_str\(\), p\.as_str\(\)\)\);$", e.skeleton().strip())]
+    fwd, other = [], []
+    for e in body:
+        if e in cred:
+            continue
+        m = re.match(r"^helpers::send_soap_request_using_client(?:::<[^()]*>)?\((.*)\)\.await(\.map\(\|_\| \(\)\))?$", e.skeleton().strip())
+        if m and [a.strip() for a in m.group(1).split(",")] == ["&self.client", "&self.location", "credentials", "req"]:
+            fwd.append(e)
+        else:
+            other.append(e)
+    alts = [tuple((og.nf_str(c[1]), c[2]) for c in e.ctx if c[0] == "alt") for e in fwd]
+    exhaustive = (len(fwd) == 1 and alts[0] == ()) or (len(fwd) == 2 and all(len(a) == 1 for a in alts) and alts[0][0][0] == alts[1][0][0] and alts[0][0][1] != alts[1][0][1])
+    cred_ok = len(cred) == 1 and not [c for c in cred[0].ctx if c[0] == "alt"] and (not fwd or all(evs.index(cred[0]) < evs.index(f) for f in fwd))
+    if cred_ok and exhaustive and not other:
+        ck.ok("R5", "method-body", evs[0].site, "method body: map credentials, then on every path exactly one forward of (&self.client, &self.location, credentials, req) to the checked helper, awaited and returned")
     else:
-        ck.violation("R5", "method-body", evs[0].site if evs else "-", f"the emitted method body is {body_lines}: it does more/less than forwarding to the checked helper")
+        why = []
+        if not cred_ok:
+            why.append("the credentials are not mapped once, unconditionally, before the forward")
+        if not exhaustive:
+            why.append(f"{len(fwd)} forwarding statement(s) under conditions {alts}: not exactly one on every path")
+        if other:
+            why.append(f"statements other than the forward: {[e.skeleton().strip()[:80] for e in other]}")
+        ck.violation("R5", "method-body", (other or fwd or evs)[0].site if evs else "-", "the emitted method does more/less than forwarding to the checked helper: " + "; ".join(why))
     for e in evs:
         m = re.match(r"^\s*pub async fn \{\}\((.*)\) -> (.*) \{$", e.skeleton().strip())
         if m:
